@@ -168,9 +168,12 @@ FirstBad(vs) == IF vs = <<>> THEN "ok" ELSE IF Head(vs) # "ok" THEN Head(vs) ELS
 Specified(c) ==
   CASE c.op = "norm" -> \A i \in DOMAIN c.axes : NormSpecified(c.axes[i].s, c.axes[i].n)
     [] c.op \in {"int3", "inter"} -> \A i \in DOMAIN c.axes : ~IsErr(Intersect(c.axes[i].a, c.axes[i].b))
-    [] c.op \in {"shape", "empty", "full"} -> \A i \in DOMAIN c.axes : LET x == c.axes[i] IN
+    [] c.op \in {"shape", "full"} -> \A i \in DOMAIN c.axes : LET x == c.axes[i] IN
           /\ ~IsErr(NormOrErr(x.s))                                                    \* closed, non-negative
           /\ NormOrErr(x.s).start[1] <= NormOrErr(x.s).stop[1] /\ NormOrErr(x.s).stop[1] <= x.n    \* inside the axis
+    \* emptiness is also owed for REVERSED regions (start > stop select nothing, on any number of axes): only "inside the axis" is required
+    [] c.op = "empty" -> \A i \in DOMAIN c.axes : LET x == c.axes[i] IN
+          /\ ~IsErr(NormOrErr(x.s)) /\ NormOrErr(x.s).start[1] <= x.n /\ NormOrErr(x.s).stop[1] <= x.n
     [] c.op = "center" -> \A i \in DOMAIN c.axes : LET x == c.axes[i] IN
           ~IsErr(NormOrErr(x.s)) /\ NormOrErr(x.s).stop[1] <= x.n /\ IndexSet(AsSlice(x.s), x.n) # {}
     [] c.op = "pad" -> \A i \in DOMAIN c.axes : LET x == c.axes[i] IN
